@@ -173,6 +173,17 @@ pub fn run(opts: &Opts, out: &mut Emitter) {
         let idx = match r.below(3) { 0 => 0u32, 1 => r.below(10) as u32, _ => u32::MAX };
         emit_fj(out, "utxoref", json!(format!("{}#{}", hx(&txid), idx)), Type::UtxoRef, json!({"utxoRef": [hx(&txid), idx]}));
     }
+    // byte envelopes whose content is not valid for the encoding they declare, under every spelling of the keys
+    for (ck, ek) in [("content", "contentType"), ("content", "encoding"), ("payload", "encoding"), ("payload", "contentType")] {
+        for enc in ["hex", "base64", "HEX", "Base64", "utf8", ""] {
+            for content in ["abc", "zz", "0x0x12", "0xabc", "/w=", "a", "=", "héé", "", " ff", "ff ", "/w==", "ff"] {
+                let mut m = serde_json::Map::new();
+                m.insert(ck.to_string(), json!(content));
+                m.insert(ek.to_string(), json!(enc));
+                emit_fj(out, "bytes:envelope-malformed", Value::Object(m), Type::Bytes, Value::Null);
+            }
+        }
+    }
     // bare JSON number literals as they arrive in a request body (text → serde_json → from_json): the
     // coerced integer must be the literal's value, or the value must be rejected
     let lits: Vec<String> = {
